@@ -261,7 +261,7 @@ pub fn run(ctx: &Ctx) {
     ctx.assume("sketching more items into an already finished sketcher is exercised, but only the claims that stay meaningful there are asserted (positions hold streamed hashes, slice == item-wise + end, idempotence)");
     ctx.assume("the 45 s watchdog is used as the non-termination signal because termination is what the property claims; the same work normally takes microseconds");
     super::run_fixed_tier(ctx, replay);
-    let (cases, max_m) = ctx.tier.pick((60_000, 256), (1_500_000, 2048));
+    let (cases, max_m) = ctx.tier.pick((300_000, 256), (3_000_000, 2048));
     ctx.drive("history", cases, 16, 2000, || strategy(max_m), eval);
     // very large, almost empty sketches (every empty bin needs ~m/n probes): finishing must still fill every bin
     let (cases, mmax) = ctx.tier.pick((6, 90_000usize), (48, 200_000usize));
